@@ -20,6 +20,7 @@ Mutants (checks/mutants/X11), all exit 1:
   copy-registry-gen      copy uses no generator of its own (TypeToRR's)   private/live:copy | panic after removal
   len-no-rdata           len() forgets Data.Len()                         private/live:len
   handle-shared-rdata    TypeToRR closure calls generator once            private/fresh-shares-rdata
+  remove-never-registered  Remove of an unregistered code removes its neighbour   private/typetostring, typetorr, ...
 """
 import os, json
 import vp
@@ -55,7 +56,17 @@ def tv(ctx, binp, n, k):
     vp.absorb(ctx, s, traces=False)
     tr = ctx.tlc_trace("Trace_PrivateRR", out, xmx="2g", timeout=1800)
     evs = vp.read_ndjson(out)
-    vp.absorb_trace(ctx, tr, evs, keyfn)
+    # like vp.absorb_trace, but a candidate carries the whole sequence since the last registry reset (the state matters)
+    bad = set(tr.bad or [])
+    ctx.traces += max(0, (tr.hwm or 0) - len(bad))
+    if not tr.accepted and not bad:
+        raise vp.Infra("Trace_PrivateRR rejected the trace without naming an event")
+    for i in sorted(bad):
+        j = i
+        while j > 1 and not evs[j - 1].get("first"):
+            j -= 1
+        ctx.candidate(keyfn(evs[i - 1]), "recorded observation rejected by the specification (last event of the sequence)",
+                      {"events": evs[j - 1:i]})
 
 
 def run(ctx):
@@ -81,13 +92,12 @@ def replay(ctx, path):
     binp = ctx.build("private")
     rp = json.load(open(path))
     case = rp["case"]
-    if "event" in case:      # a single recorded action: redo it on a fresh registry, TLC judges the fresh observation
+    if "events" in case:     # a recorded sequence: redo its actions on a fresh registry, TLC judges the fresh observations
         pin, pout = os.path.join(ctx.out, "event-in.ndjson"), os.path.join(ctx.out, "event-out.ndjson")
-        ev = dict(case["event"]); ev["first"] = True
-        vp.write_ndjson(pin, [ev])
+        vp.write_ndjson(pin, case["events"])
         s = ctx.run_json(binp, ["reexec", pin, pout])
         tr = ctx.tlc_trace("Trace_PrivateRR", pout)
-        bad = bool(tr.bad) or not tr.accepted or bool(s["mismatches"])
+        bad = (len(case["events"]) in (tr.bad or [])) or not tr.accepted and not tr.bad or bool(s["mismatches"])
     else:
         p = os.path.join(ctx.out, "one.ndjson")
         vp.write_ndjson(p, [case])
